@@ -98,13 +98,11 @@ func (m *StrMap[V]) LoadFromSlice(kk []string, vv []V) error {
 		}
 		sz += len(k)
 	}
-	m.data = m.data[:0]
+	// keys returned by Item alias m.data: never overwrite it, a reload gets a new buffer
+	m.data = make([]byte, 0, sz)
 	m.items = m.items[:0]
 	m.hashtable = m.hashtable[:0]
 
-	if cap(m.data) < sz {
-		m.data = make([]byte, 0, sz)
-	}
 	if cap(m.items) < len(vv) {
 		m.items = make([]mapItem[V], 0, len(vv))
 	}
